@@ -6,6 +6,7 @@ package checkpoint
 // (key + hash of the inserted leaf) that is revived through the node store.
 
 import (
+	"errors"
 	"context"
 
 	"github.com/oasisprotocol/oasis-core/go/common/crypto/hash"
@@ -30,7 +31,12 @@ type vMemDB struct {
 	logs    []vMemLog
 	commits int
 	getNode int // number of GetNode calls (lazy loads)
+
+	failNewBatch bool // fault injection: NewBatch fails (a transient node database error)
+	failCommit   bool // fault injection: batch Commit fails
 }
+
+var errVMemTransient = errors.New("verif memdb: injected transient failure")
 
 func newVMemDB() *vMemDB { return &vMemDB{} }
 
@@ -126,6 +132,9 @@ type vMemBatch struct {
 }
 
 func (d *vMemDB) NewBatch(oldRoot node.Root, _ uint64, _ bool) (db.Batch, error) {
+	if d.failNewBatch {
+		return nil, errVMemTransient
+	}
 	return &vMemBatch{d: d, oldRoot: oldRoot}, nil
 }
 
@@ -146,6 +155,9 @@ func (b *vMemBatch) PutWriteLog(writeLog writelog.WriteLog, annotations writelog
 func (b *vMemBatch) RemoveNodes([]*node.Pointer) error { return nil }
 
 func (b *vMemBatch) Commit(root node.Root) error {
+	if b.d.failCommit {
+		return errVMemTransient
+	}
 	b.d.nodes = append(b.d.nodes, b.pending...)
 	b.d.roots = append(b.d.roots, root)
 	b.d.logs = append(b.d.logs, vMemLog{start: b.oldRoot, end: root, log: b.log})
